@@ -59,6 +59,8 @@ type PropDef struct {
 	Digest      func(x *Exec) string
 	// Enum runs one shard of a sequential enumerator (C13..C20).
 	Enum func(env *EnumEnv, it *WorkItem) *EnumResult
+	// ReplayInput re-checks one recorded input without the enumerator.
+	ReplayInput func(env *EnumEnv, raw []byte) []*Violation
 }
 
 var Props = map[string]*PropDef{}
